@@ -53,7 +53,7 @@ func ytID(g *docGen) string {
 
 // embedURL writes the URL of the case: scheme kind, userinfo, host labels, path segments
 // (tokens ID / ROOT replaced), query, fragment.
-func embedURL(c Case, id, rootName string) string {
+func embedURL(c Case, id, rootName string, ampQuery bool) string {
 	hostL := strList(c.list("hostL"))
 	userL := strList(c.list("userL"))
 	segs := strList(c.list("path"))
@@ -89,7 +89,12 @@ func embedURL(c Case, id, rootName string) string {
 	}
 	switch c.str("query", "none") {
 	case "plain":
-		sb.WriteString("?rel=0&autoplay=1")
+		// YouTube also accepts (and old embed codes use) "&" before the first parameter: .../v/ID&rel=0
+		if ampQuery && strings.Contains(rootName, "youtube") && len(segs) > 0 && segs[len(segs)-1] == id {
+			sb.WriteString("&rel=0&autoplay=1")
+		} else {
+			sb.WriteString("?rel=0&autoplay=1")
+		}
 	case "hostlike":
 		sb.WriteString("?u=http://www." + rootName + "/embed/zqq1&rel=0")
 	}
@@ -154,6 +159,10 @@ func splitURL(s string) urlParts {
 		s = s[:i]
 	}
 	if i := strings.IndexByte(s, '?'); i >= 0 {
+		p.Query = true
+		s = s[:i]
+	} else if i := strings.IndexByte(s, '&'); i >= 0 {
+		// parameters attached with "&" to a URL without "?" (old embed codes): read as the query they are meant to be
 		p.Query = true
 		s = s[:i]
 	}
@@ -323,7 +332,7 @@ func runEmbed(c Case, e *env) []Event {
 	}
 	decoy := digits(g, 17)
 	marker := fmt.Sprintf("zqmk%d", 100000+g.rng.Intn(900000))
-	url := embedURL(c, id, rootName)
+	url := embedURL(c, id, rootName, g.rng.Intn(3) == 0)
 	page := "<!DOCTYPE html><html><head><title>" + g.words(5) + "</title></head><body>" +
 		g.para(70) + embedCarrier(c, g, url, tid, decoy, marker) + g.para(65) + "</body></html>"
 	doc, err := xhtml.Parse(strings.NewReader(page))
